@@ -20,6 +20,10 @@ pub struct RefConn {
     /// Σ_p |c_p(r,l)| (bigram only; 0 for matrix): used to decide whether the dual connector's
     /// pre-summed part can have been clamped.
     pub abs_sum: Vec<Vec<i64>>,
+    /// true iff every partial sum over template positions lies inside i16 (sum of the negative
+    /// contributions ≥ -32768 and sum of the positive ones ≤ 32767): whatever subset of positions the
+    /// dual connector pre-sums, that part "fits in 16 bits" and cannot have been clamped.
+    pub fits16: Vec<Vec<bool>>,
 }
 
 impl RefConn {
@@ -34,6 +38,7 @@ impl RefConn {
             num_right: nr,
             num_left: nl,
             abs_sum: vec![vec![0; nl]; nr],
+            fits16: vec![vec![true; nl]; nr],
             cost,
         }
     }
@@ -48,6 +53,7 @@ impl RefConn {
         let nl = b.left_rows.len() + 1;
         let mut cost = vec![vec![0i64; nl]; nr];
         let mut abs_sum = vec![vec![0i64; nl]; nr];
+        let mut fits16 = vec![vec![true; nl]; nr];
         // feature of id `id` at position p: id 0 is the empty feature at every position;
         // a row shorter than p has nothing there.
         let feat = |rows: &Vec<Vec<String>>, id: usize, p: usize| -> Option<String> {
@@ -61,6 +67,7 @@ impl RefConn {
             for l in 0..nl {
                 let mut s = 0i64;
                 let mut a = 0i64;
+                let (mut neg, mut pos) = (0i64, 0i64);
                 for p in 0..k {
                     if let (Some(fr), Some(fl)) = (feat(&b.right_rows, r, p), feat(&b.left_rows, l, p)) {
                         if fr == "*" || fl == "*" {
@@ -69,11 +76,17 @@ impl RefConn {
                         if let Some(c) = table.get(&(fr.as_str(), fl.as_str())) {
                             s += c;
                             a += c.abs();
+                            if *c < 0 {
+                                neg += c;
+                            } else {
+                                pos += c;
+                            }
                         }
                     }
                 }
                 cost[r][l] = s;
                 abs_sum[r][l] = a;
+                fits16[r][l] = neg >= -32768 && pos <= 32767;
             }
         }
         Self {
@@ -81,6 +94,7 @@ impl RefConn {
             num_left: nl,
             cost,
             abs_sum,
+            fits16,
         }
     }
 
